@@ -6,8 +6,9 @@
                  empty host - host_nonempty; the path half: is_cbb = is_opaque_b, Known_F_C02_8 is path_bad without
                  the marker) - except for ONE class that known_step2 lacks: a path_segments_mut session on an
                  authority-less record without marker whose result starts with "//".  SessNoSS dbg says that there
-                 is no such session (true by inspection: a session appends '/' only behind a non-empty path and
-                 encodes '/' inside a segment; NOT proved here - it is a named hypothesis of reach3_inv);
+                 is no such session on a record of a non-special scheme (AS: others have an authority); it is a named
+                 hypothesis of known_k / reach3_inv, proved in Proofs/C03_SessNoSS.v (session_no_ss) and discharged
+                 at the end of this file (reach3_inv_all);
      qpm_inv03 : query_pairs_mut sessions keep inv03 and the byte alphabet (no component invariant needed);
      reach3_inv: every record of Reachable3 satisfies inv03, hence wf_b /\ host_text_ok. *)
 From RU Require Import Proofs.C15_Table Proofs.C15_Bser Proofs.C15_Ser Proofs.C15_Url.
@@ -19,7 +20,8 @@ From RU Require Import Base.Prelude Base.Utf8 Base.Outcome_c15 Model.AsciiSet Ge
   Proofs.C06_PathMore Proofs.C06_Quirks Proofs.C05_Enc Proofs.C05_Parser Proofs.C05_Setters Proofs.C05_ParseAll Proofs.C05_CompSteps
   Proofs.C04_ParseTotal Proofs.C03_ReachParts Proofs.C03_Reach Proofs.C03_ReachFile Proofs.C03_ReachAll Proofs.C03_Reachability Proofs.C03_PortInv
   Proofs.C03_AuthEnd Proofs.C05_BaseOk Proofs.C05_AuthOfs Proofs.C05_AuthParse Proofs.C05_HostText Proofs.C05_Qpm
-  Proofs.C03_ReachAscii Proofs.C03_Views Proofs.C03_ParseFront Proofs.C03_PortParse Proofs.C03_ReachKnown Proofs.C03_ReachJoin.
+  Proofs.C03_ReachAscii Proofs.C03_Views Proofs.C03_ParseFront Proofs.C03_PortParse Proofs.C03_ReachKnown Proofs.C03_ReachJoin
+  Proofs.C03_SessNoSS.
 Open Scope N_scope.
 Open Scope list_scope.
 
@@ -155,7 +157,8 @@ Qed.
 
 (* ---------- the one class of excl03k that known_step2 lacks ---------- *)
 Definition SessNoSS : Prop :=
-  forall u ops u', wf_b u = true -> noauth_slash_path u -> Forall psm_op_usv ops ->
+  forall u ops u', wf_b u = true -> noauth_slash_path u -> st_is_special (scheme_type_of (b_scheme u)) = false ->
+    Forall psm_op_usv ops ->
     path_segments_session dbg u ops = Some (u', SOk) -> path_starts_with_2slash u' = false.
 
 Hypothesis HSS : SessNoSS.
@@ -228,7 +231,9 @@ Proof using HW HNE HSS.
     unfold Known_F_C03_5 in K5. cbn [is_host_or_path_op] in K5. rewrite andb_true_r in K5.
     destruct st; [|left; exact (path_segments_session_atomic dbg u ops u' _ H ltac:(discriminate)) ..].
     right. apply (path_bad_of u u' K5). intros Hna Ho.
-    exact (HSS u ops u' W (nsp_of u W Hna Ho K5) Ha H).
+    apply (HSS u ops u' W (nsp_of u W Hna Ho K5)); [|exact Ha | exact H].
+    destruct (st_is_special (scheme_type_of (b_scheme u))) eqn:Es; [|reflexivity].
+    rewrite (wf_ao_auth u W (A Es)) in Hna. discriminate.
   - (* quirks set_host *)
     unfold Known_F_C03_5 in K5. cbn [is_host_or_path_op] in K5. rewrite andb_true_r in K5.
     destruct st; [|left; exact (q_set_host_atomic dbg hp hpo hd u s u' _ H ltac:(discriminate)) ..].
@@ -305,3 +310,11 @@ Proof using HW HNE HIPW HOK HIP HSS.
   - destruct IH as [Iu Ou]. exact (qpm_inv03 dbg u ops u' Iu Ou Hops H).
 Qed.
 End Reach3.
+
+(* ---------- SessNoSS holds ---------- *)
+Theorem sess_no_ss dbg : SessNoSS dbg.
+Proof. intros u ops u' W NA Hns Hops H. exact (session_no_ss dbg u ops u' W NA Hns Hops H). Qed.
+
+Theorem reach3_inv_all dbg hp hpo hd : HostWf hp hpo hd -> host_nonempty hp hpo -> IpWf hd -> HostOK hp hpo hd -> IpOK hd ->
+  forall u, Reachable3 dbg hp hpo hd u -> inv03 u /\ Forall ok_or_space (ser u).
+Proof. intros HW HNE HIPW HOK HIP. exact (reach3_inv dbg hp hpo hd HW HNE HIPW HOK HIP (sess_no_ss dbg)). Qed.
